@@ -480,8 +480,9 @@ class TransactionManager(Elaboratable):
                 if any(
                     not group & frozenset(method_map.transactions_for(dep))
                     for transaction in group
-                    for dep in ready_dependencies[transaction]
-                    if dep in transaction.simultaneous_list
+                    for body in method_map.ready_for_transaction(transaction)
+                    for dep in ready_dependencies[body]
+                    if dep in body.simultaneous_list
                 ):
                     continue
                 name = "_".join([t.name for t in group])
